@@ -13,7 +13,7 @@ import (
 
 func init() {
 	register(&propDef{ID: "C08", Run: runC08,
-		Explain:    "Structural necessary conditions of 'no network input can crash, wedge or balloon the proxy', decided on the SSA of every function reachable from the socket receive loops and the message loop of /repo: (1) panic-obligations: every index, slice expression, string index, make with a non-constant size, integer division/modulo by a non-constant, unchecked type assertion in that code is proved in range by linear reasoning from the branch conditions that must hold there, range/counting loops, and library contracts (F1 index results, F2 Split >= 1, F3 HasPrefix/HasSuffix lengths, F4 different needles, F5 len of a slice expression, F6 distinct prefix and suffix), with callee summaries for position helpers and an inductive non-negativity analysis; a pointer returned together with an error (or by a constructor that can return nil) is dereferenced only where the error/nil was tested; (2) alloc-bound: no allocation size is network-derived without a dominating constant bound (memory must follow received bytes); (3) discard: the UDP handler runs only when ParseMessage succeeded; on a TCP parse error the connection is closed and the per-connection loop is left; (4) no-exit: no panic, os.Exit, log.Fatal, zap Fatal/Panic/DPanic or Must-style call in that code (a built-in positive example must be recognised); (5) no-recursion: no call cycle among those functions.",
+		Explain:    "Structural necessary conditions of 'no network input can crash, wedge or balloon the proxy', decided on the SSA of every function reachable from the socket receive loops and the message loop of /repo: (1) panic-obligations: every index, slice expression, string index, make with a non-constant size, integer division/modulo by a non-constant, unchecked type assertion in that code is proved in range by linear reasoning from the branch conditions that must hold there, range/counting loops, and library contracts (F1 index results, F2 Split >= 1, F3 HasPrefix/HasSuffix lengths, F4 different needles, F5 len of a slice expression, F6 distinct prefix and suffix), with callee summaries for position helpers and an inductive non-negativity analysis; a pointer returned together with an error (or by a constructor that can return nil) is dereferenced only where the error/nil was tested; (2) alloc-bound: no allocation size is network-derived without a dominating constant bound (memory must follow received bytes); (3) discard: the UDP handler runs only when ParseMessage succeeded; on a TCP parse error the connection is closed and the per-connection loop is left; (4) no-exit: no panic, os.Exit, log.Fatal, zap Fatal/Panic/DPanic or Must-style call in that code (a built-in positive example must be recognised); (5) no-recursion: no call cycle among those functions. (service-loops): in the UDP parse loop and in the message loop no branch on a received value (or anything computed from one) has a side from which the loop never receives again - leaving on a closed channel is not content.",
 		NotDecided: "stalls caused by blocking system calls on the loop thread (DNS lookups, dials and writes without deadlines), CPU time, resident-set size; nil-safety of plain field loads (assumed non-nil by construction)."})
 }
 
@@ -43,6 +43,7 @@ func runC08(c *Ctx) {
 	c08Discard(c)
 	c08NoExit(c)
 	c08NoRecursion(c)
+	c08ServiceLoops(c)
 	c09LockOrder(c) // a lock re-acquired while held, or a lock cycle, stalls the message loop (rule name "lock-order")
 	if c.Tier == "thorough" && bceFile != "" {
 		c08BCECrossCheck(c)
@@ -1333,4 +1334,126 @@ func (w *World) phiEdgeOpen(fn *ssa.Function, ph *ssa.Phi, v ssa.Value, call *ss
 		}
 	}
 	return open
+}
+
+// c08ServiceLoops: the datagram parse loop of a UDP listener and the proxy's message loop serve every later message too:
+// whether they go on must not depend on what they have just received. Structurally: no branch whose condition is
+// computed from a received value (a datagram entry, a raw message, an event, or anything derived from one) has a side
+// from which no further receive is reachable. (Leaving on a closed channel - the comma-ok flag of the receive - is not
+// content.)
+func c08ServiceLoops(c *Ctx) {
+	w := c.w
+	rule := "service-loops"
+	for _, name := range []string{"(*UDPServerTransport).startParseMessage", "(*Proxy).receiveAndProcessMessage"} {
+		f := c.fn(rule, name)
+		if f == nil {
+			continue
+		}
+		isRecv := func(in ssa.Instruction) bool {
+			if u, ok := in.(*ssa.UnOp); ok && u.Op == token.ARROW {
+				return true
+			}
+			_, isSel := in.(*ssa.Select)
+			return isSel
+		}
+		nRecv := 0
+		eachInstr(f, func(in ssa.Instruction) {
+			if isRecv(in) {
+				nRecv++
+			}
+		})
+		if nRecv == 0 {
+			c.undecided(rule, name+"/receives", w.pos(f.Pos()), name+" receives from no channel: the loop it is anchored on was not found")
+			continue
+		}
+		// values computed from what was received
+		memo := map[ssa.Value]bool{}
+		var tainted func(v ssa.Value, d int) bool
+		tainted = func(v ssa.Value, d int) bool {
+			if v == nil || d > 12 {
+				return false
+			}
+			if t, ok := memo[v]; ok {
+				return t
+			}
+			memo[v] = false
+			res := false
+			switch x := v.(type) {
+			case *ssa.UnOp:
+				if x.Op == token.ARROW {
+					res = !x.CommaOk // the tuple of a comma-ok receive is judged at its Extract
+				} else {
+					res = tainted(x.X, d+1)
+				}
+			case *ssa.Extract:
+				switch t := x.Tuple.(type) {
+				case *ssa.UnOp:
+					if t.Op == token.ARROW {
+						res = x.Index == 0
+					} else {
+						res = tainted(t, d+1)
+					}
+				case *ssa.Select:
+					res = x.Index >= 2 // 0: which case, 1: receive ok, 2..: the received values
+				default:
+					res = tainted(x.Tuple, d+1)
+				}
+			case *ssa.Alloc:
+				// a local variable: computed from what was received if anything stored into it (or into a part of it) is
+				var refs func(a ssa.Value, dd int)
+				refs = func(a ssa.Value, dd int) {
+					if a.Referrers() == nil || dd > 3 {
+						return
+					}
+					for _, r := range *a.Referrers() {
+						switch y := r.(type) {
+						case *ssa.Store:
+							if y.Addr == a && tainted(y.Val, d+1) {
+								res = true
+							}
+						case *ssa.FieldAddr:
+							refs(y, dd+1)
+						case *ssa.IndexAddr:
+							refs(y, dd+1)
+						}
+					}
+				}
+				refs(x, 0)
+			case *ssa.Const, *ssa.Global, *ssa.Function, *ssa.Parameter, *ssa.FreeVar, *ssa.Builtin:
+				res = false
+			default:
+				if in, ok := v.(ssa.Instruction); ok {
+					var rands []*ssa.Value
+					for _, r := range in.Operands(rands) {
+						if *r != nil && tainted(*r, d+1) {
+							res = true
+						}
+					}
+				}
+			}
+			memo[v] = res
+			return res
+		}
+		n, bad := 0, 0
+		for _, b := range f.Blocks {
+			if len(b.Instrs) == 0 {
+				continue
+			}
+			ifi, ok := b.Instrs[len(b.Instrs)-1].(*ssa.If)
+			if !ok || !tainted(ifi.Cond, 0) {
+				continue
+			}
+			n++
+			for _, s := range b.Succs {
+				if !canReach(blockStart(s), nil, isRecv, nil) {
+					bad++
+					c.bad(rule, fmt.Sprintf("%s/content-dependent-exit#%d", name, bad), w.ipos(ifi), name+" can stop serving depending on what it has just received (a branch on a received value has a side from which it never receives again): one datagram or message of that shape - a zero-length datagram taken for an end marker, say - ends the loop, and nothing that follows is handled")
+				}
+			}
+		}
+		if bad == 0 {
+			c.ok(rule, name+"/no-content-dependent-exit", w.pos(f.Pos()), fmt.Sprintf("%d branch(es) on received values, each side receives again", n))
+		}
+	}
+	c.floor(rule, 2)
 }
